@@ -200,7 +200,19 @@ func (w *Wallet) txToOutputs(outputs []*wire.TxOut,
 			}
 
 			var eligibleSelectedUtxo []wtxmgr.Credit
+			seenSelected := make(
+				map[wire.OutPoint]struct{}, len(selectedUtxos),
+			)
 			for _, outpoint := range selectedUtxos {
+				// An outpoint can only be spent once by the
+				// transaction we're about to create.
+				if _, ok := seenSelected[outpoint]; ok {
+					return fmt.Errorf("selected outpoint "+
+						"specified more than once: %v",
+						outpoint)
+				}
+				seenSelected[outpoint] = struct{}{}
+
 				e, ok := eligibleByOutpoint[outpoint]
 
 				if !ok {
